@@ -395,11 +395,69 @@ def constructor_sites(program, rep, found):
     return n
 
 
+def unsafe_ctor_callers(program, rep):
+    """PROV-UNSAFE (who-may-call): the unchecked constructors (`from_raw_unchecked`, `TinyAsciiStr::from_bytes_unchecked` and the unsafe repository
+    functions that reach them) are called from safe code only with table data (elements of the bundled statics, whose well-formedness is the TAB-DECODE
+    obligation), constants or values already of a validated type - never with a caller-supplied integer or byte string"""
+    from .. import terms, callgraph
+    facts = program.facts
+    base = set(n for n, b in facts.bodies.items() if n.startswith('unic_langid_impl::') and b.get('sig') and b['sig']['unsafe'] and n.endswith('::from_raw_unchecked'))
+    cg = callgraph.CallGraph(program)
+    U = set(base)
+    for n, b in facts.bodies.items():
+        if n.startswith(('unic_langid_impl::', 'unic_locale_impl::')) and b.get('sig') and b['sig']['unsafe'] and b['kind'] in ('Fn', 'AssocFn') and (cg.reachable([n]) & base):
+            U.add(n)
+    ext_unchecked = re.compile(r'TinyAsciiStr::<N>::from_bytes_unchecked$|str::from_utf8_unchecked$')
+    n_sites = 0
+    for fn, b in sorted(facts.bodies.items()):
+        if not b.get('mir') or not fn.startswith(('unic_langid_impl::', 'unic_locale_impl::')) or fn in U:
+            continue
+        if (b.get('sig') and b['sig']['unsafe']) or (b.get('impl') and b['impl'].get('derived')):
+            continue
+        root = fn.split('::{closure')[0]
+        if root in U or (facts.bodies.get(root, {}).get('sig') or {}).get('unsafe'):
+            continue
+        names = [(blk['term'].get('r') or blk['term'].get('f') or '') for blk in b['mir']['blocks'] if blk['term']['k'] == 'call']
+        if not any(x in U or ext_unchecked.search(x) for x in names):
+            continue
+        e = pxm.PX(program, opaque=U)
+        bad = []
+        try:
+            segs = e.explore(fn)
+        except pxm.Limit as ex:
+            segs = []
+            bad.append('INCONCLUSIVE(%s)' % ex)
+        for sg in segs:
+            for ev in sg.state.events:
+                if ev[0] != 'call' or not (ev[1] in U or ext_unchecked.search(ev[1])):
+                    continue
+                n_sites += 1
+                csig = (facts.bodies.get(ev[1], {}).get('sig') or {}).get('inputs')
+                for ai, a in enumerate(ev[2]):
+                    pty = csig[ai] if csig and ai < len(csig) else 'u64'
+                    if not re.search(r'\b(u8|u16|u32|u64|u128|usize)\b|TinyAsciiStr', pty):
+                        continue          # a parameter of a validated type (Language, Option<Script> ...): whatever is passed was validated when it was built
+                    leaves = terms.find_terms(a, lambda t: t[0] in ('param', 'init', 'lv', 'call', 'byte', 'tiny', 'len', 'slice'))
+                    for t in leaves:
+                        # allowed: nothing that depends on the caller's input.  Table rows are ('elem', ('unk', ('ST', static)), index) terms: their index may be a search result
+                        if t[0] == 'call' and re.search(r'::binary_search(_by|_by_key)?$', t[1]):
+                            continue
+                        inside_index = bool(terms.find_terms(a, lambda u: u[0] == 'elem' and u[1][0] == 'unk' and u[1][1][0] == 'ST' and terms.find_terms(u[2], lambda w: w == t)))
+                        if inside_index:
+                            continue
+                        bad.append('%s receives %s, which is not table data' % (ev[1].split('::')[-2] + '::' + ev[1].split('::')[-1], e.short(a, 120)))
+                        break
+        rep.ob('prov:unsafe:%s' % fn_key(fn), 'PROV-UNSAFE', fn, b['span'], '%s calls the unchecked constructors only with table data' % short_fn(fn), not bad,
+               detail='\n'.join(sorted(set(bad))[:3]), how='%d call sites' % n_sites)
+    return n_sites
+
+
 def run_all(program, rep, roles_wanted=None):
     roles = load_roles()
     found, missing = find_validators(program.facts)
     if roles_wanted is None or {'Language', 'Script', 'Region', 'Variant'} <= set(roles_wanted):
         constructor_sites(program, rep, found)
+        unsafe_ctor_callers(program, rep)
     results = {}
     for r in missing:
         if roles_wanted is None or r in roles_wanted:
